@@ -734,7 +734,15 @@ func (e *Engine) havocLoop(st *State, fr *Frame, li *LoopInfo, spec *LoopSpec) {
 			case *ssa.MapUpdate:
 				if m, ok := fr.regs[x.Map].(*MapV); ok {
 					if ms := e.mapState(st, m); ms != nil {
-						st.heap[m.C.ID] = &MapState{Dom: mk(ms.Dom.S, e.C.Fresh("loop_dom", ms.Dom.S)), Val: mk(ms.Val.S, e.C.Fresh("loop_val", ms.Val.S))}
+						st.heap[m.C.ID] = &MapState{Dom: mk(ms.Dom.S, e.C.Fresh("loop_dom", ms.Dom.S)), Val: mk(ms.Val.S, e.C.Fresh("loop_val", ms.Val.S)), T: ms.T}
+					}
+				} else if mt, isMap := x.Map.Type().Underlying().(*types.Map); isMap {
+					// the map is loaded inside the loop (e.g. a struct field): every tracked map of that type may be
+					// the one written (type-based aliasing)
+					for id, hv := range st.heap {
+						if ms, isMS := hv.(*MapState); isMS && ms.T != nil && types.Identical(ms.T, mt) {
+							st.heap[id] = &MapState{Dom: mk(ms.Dom.S, e.C.Fresh("loop_dom", ms.Dom.S)), Val: mk(ms.Val.S, e.C.Fresh("loop_val", ms.Val.S)), T: ms.T}
+						}
 					}
 				}
 			}
